@@ -544,8 +544,10 @@ def nested_family():
               # an operand the ranges prove dominated (and that the compiler prunes) in front of / between the kept ones
               ['max', [num(-9), x, y]], ['min', [num(9), x, y]], ['max', [x, num(-9), y]], ['min', [x, y, num(9)]],
               # affine inner terms: the wrappers then act on plain linear expressions
-              x, ['+', x, y], ['-', ['*', num(2), x], y]]
-    outers = [lambda e: e, lambda e: ['abs', e], lambda e: ['max', [e, num(0.5)]], lambda e: ['min', [e, num(1)]], lambda e: ['neg', ['abs', e]],
+              x, ['+', x, y], ['-', ['*', num(2), x], y],
+              # blocks with a single operand (a scoped block over a one-element range): the operand is a sum / difference
+              ['max', [['-', x, y]]], ['min', [['+', x, y]]], ['min', [['+', x, num(1)]]]]
+    outers = [lambda e: e, lambda e: ['-', var('y'), e], lambda e: ['*', num(2), e], lambda e: ['abs', e], lambda e: ['max', [e, num(0.5)]], lambda e: ['min', [e, num(1)]], lambda e: ['neg', ['abs', e]],
               lambda e: ['*', num(-2), ['abs', e]],
               # sign-changing and scaling wrappers directly above a piecewise block: division and multiplication by
               # negative / positive constants on either side, unary minus
